@@ -61,6 +61,13 @@ def spec_call(E, name, node, st, fr):
         o.locals = dict(fr.old.locals)
         o.pc = st.pc      # definitional facts go to the current path condition
         return E.ev(A[0], o, sub)
+    if name == "resume":
+        if st.resume is None:
+            raise CheckerError("resume() outside generator verification")
+        o = st.resume.copy()
+        o.locals = dict(st.locals)
+        o.pc = st.pc
+        return E.ev(A[0], o, fr)
     if name == "at_entry":
         if not fr.loop_entry:
             raise CheckerError("at_entry() outside a loop invariant")
@@ -162,6 +169,12 @@ def spec_call(E, name, node, st, fr):
         if v.t.kind == "opt":
             return V(v.t.args[0], ty.opt_sort(v.t.args[0])[3](v.z))
         return v
+    if name in ("np_log", "np_sqrt", "pow2"):
+        f = E.ufn(name, z3.RealSort(), z3.RealSort())
+        return V(REAL, f(E.coerce(E.ev(A[0], st, fr), REAL).z))
+    if name == "unknown_callable":
+        f = E.ufn("unknown_callable", ty.RefSort, z3.RealSort(), z3.RealSort(), z3.RealSort())
+        return V(REAL, f(E.ev(A[0], st, fr).z, E.coerce(E.ev(A[1], st, fr), REAL).z, E.coerce(E.ev(A[2], st, fr), REAL).z))
     if name == "rmul":
         return E.mul(E.ev(A[0], st, fr), E.ev(A[1], st, fr))
     if name == "rdiv":
